@@ -101,6 +101,9 @@ pub trait Dev {
     // can be in an unusable state (ZipFileReader::NoReader) overrides it, adapters over a generic inner
     // reader forward it.  `Read::read` requires it, so every call site has to establish it.
     open spec fn g_ready(&self) -> bool { true }
+    // an adapter's own invariant that every Write operation on it preserves (for a sink wrapper: "the
+    // device below is still usable"); true by default; MaybeEncrypted overrides it
+    open spec fn g_inv(&self) -> bool { true }
 }
 
 // what every operation on a device preserves / guarantees, whatever its outcome
@@ -215,7 +218,7 @@ pub trait Seek: Dev {
 // Sink.  `write` may accept any non-empty prefix; an error says nothing about
 // what was written.
 pub open spec fn wr_n<T: Dev + ?Sized>(a: &T, b: &T, ok: bool, w: Seq<u8>) -> bool {
-    dev_step(a, b)
+    dev_step(a, b) && (a.g_inv() ==> b.g_inv())
     && (a.g_dev() ==> (!ok ==> b.g_fault()))
     && (a.g_dev() ==> (ok ==> b.g_fault() == a.g_fault() && b.g_pos() == a.g_pos() + w.len()
             && b.g_bytes() == put(a.g_bytes(), a.g_pos(), w)))
@@ -223,6 +226,7 @@ pub open spec fn wr_n<T: Dev + ?Sized>(a: &T, b: &T, ok: bool, w: Seq<u8>) -> bo
 pub trait Write: Dev {
     fn write(&mut self, buf: &[u8]) -> (r: io::Result<usize>)
         ensures
+            old(self).g_inv() ==> final(self).g_inv(),
             dev_step(old(self), final(self)),
             r matches Ok(n) ==> n <= buf@.len(),
             old(self).g_dev() ==> (r is Err ==> final(self).g_fault()),
@@ -230,6 +234,7 @@ pub trait Write: Dev {
                 && wr_n(old(self), final(self), true, buf@.subrange(0, n as int)));
     fn flush(&mut self) -> (r: io::Result<()>)
         ensures
+            old(self).g_inv() ==> final(self).g_inv(),
             dev_step(old(self), final(self)),
             old(self).g_dev() ==> (r is Err ==> final(self).g_fault()),
             old(self).g_dev() ==> (r is Ok ==> final(self).g_fault() == old(self).g_fault()
